@@ -317,23 +317,33 @@ def _uses_ifun(x):
     return False
 
 
-def instances(level, slots=None, core_only=False, variant=None):
-    """All instances with exactly `level` deviating slots among `slots`."""
+_POOL_CACHE = {}
+
+
+def _pool_idx(sname, core_only, variant):
+    k = (sname, core_only, variant)
+    if k not in _POOL_CACHE:
+        _POOL_CACHE[k] = [
+            i
+            for i, (x, core) in enumerate(pool(sname))
+            if (core or not core_only) and not (variant == "bool" and mentions(x, NUMERIC))
+        ]
+    return _POOL_CACHE[k]
+
+
+def ids(level, slots=None, core_only=False, variant=None):
+    """case ids only (no spec construction)."""
     slots = list(slots if slots is not None else BASE_SLOTS)
     for combo in combinations(slots, level):
-        idxs = []
-        for sname in combo:
-            pl = pool(sname)
-            idxs.append(
-                [
-                    i
-                    for i, (x, core) in enumerate(pl)
-                    if (core or not core_only) and not (variant == "bool" and mentions(x, NUMERIC))
-                ]
-            )
+        idxs = [_pool_idx(sname, core_only, variant) for sname in combo]
         for pick in product(*idxs):
-            cid = tuple(zip(combo, pick))
-            yield cid, make(dict(cid), variant)
+            yield tuple(zip(combo, pick))
+
+
+def instances(level, slots=None, core_only=False, variant=None):
+    """All instances with exactly `level` deviating slots among `slots`."""
+    for cid in ids(level, slots, core_only, variant):
+        yield cid, make(dict(cid), variant)
 
 
 def plan(tier, slots=None, extra_full=()):
@@ -346,6 +356,6 @@ def plan(tier, slots=None, extra_full=()):
 def case_ids(tier, slots=None):
     out = []
     for level, core_only in plan(tier):
-        for cid, _ps in instances(level, slots, core_only):
+        for cid in ids(level, slots, core_only):
             out.append((level, cid))
     return out
